@@ -48,7 +48,7 @@ def c15_2(ctx):
         ctx.need(top, 'branch test of %s not found' % n)
         test = N(top[-1].test)
         rb = [r for r in top[-1].body if isinstance(r, ast.Return)]
-        rl = [r for r in top[-1].orelse if isinstance(r, ast.Return)]
+        rl = [r for r in else_of(top[-1]) if isinstance(r, ast.Return)]
         ctx.need(rb and rl, '%s does not return in both the branch and the leaf case' % n)
         comp = [c for c in ast.walk(rb[0].value) if isinstance(c, ast.ListComp) and any(isinstance(x, ast.Call) and call_name(x) == n for x in ast.walk(c))]
         ctx.need(comp, 'recursive comprehension of %s not found' % n)
@@ -111,7 +111,7 @@ def c15_3(ctx):
     if not leaf or N(leaf[0].test) != NS('%s[-2] in res and in_(%s[-1], %s)' % (item, item, ignore)):
         ctx.fail(fn, leaf[0] if leaf else fn.node, 'ignore test is `%s`, expected `item[-2] in res and in_(item[-1], ignore)`' % (U(leaf[0].test) if leaf else '?'))
     else:
-        st = [a for a in leaf[0].orelse if isinstance(a, ast.Assign)]
+        st = [a for a in else_of(leaf[0]) if isinstance(a, ast.Assign)]
         if not st or N(st[0].targets[0]) != 'res[%s[-2]]' % item or N(st[0].value) != '%s[-1]' % item:
             ctx.fail(fn, leaf[0], 'the leaf is not stored as res[item[-2]] = item[-1]')
         if not any(isinstance(r, ast.Return) for r in leaf[0].body):
@@ -192,7 +192,7 @@ def c15_5(ctx):
         rb = [x for x in lit[0].body if isinstance(x, ast.Return)]
         if not rb or N(rb[0].value) != NS('tree_to_table(t[key], match[1:], leaf=leaf)'):
             ctx.fail(f1, lit[0], 'a literal segment does not descend into t[key] with the rest of the pattern')
-        re_ = [x for x in lit[0].orelse if isinstance(x, ast.Return)]
+        re_ = [x for x in else_of(lit[0]) if isinstance(x, ast.Return)]
         if not re_ or N(re_[0].value) != '[]':
             ctx.fail(f1, lit[0], 'a literal segment absent from the tree does not yield no rows')
     else:
